@@ -74,6 +74,8 @@ pub struct Handle {
 pub struct Sim {
     pub name: String,
     pub opts: SimOpts,
+    /// number of entries in the real flow table (still answers after the `Multiplexor` is dropped)
+    pub flow_probe: Box<dyn Fn() -> usize + Send + Sync>,
     pub mux: Option<Arc<Multiplexor<ScriptRng>>>,
     pub ws: SimWs,
     pub rng: ScriptRng,
@@ -178,9 +180,12 @@ impl Sim {
             Multiplexor::new_detailed::<_, FrozenClock>(ws.clone(), opts.options(), rng.clone());
         let mut exec = Exec::default();
         exec.spawn("task", async move { Done::Task(taskdata.into_task().await) });
+        // (verification hook of penguin-mux, `--cfg penguin_rs_verif`: the size of the flow table)
+        let flow_probe: Box<dyn Fn() -> usize + Send + Sync> = Box::new(mux.verif_flow_count_probe());
         let mut s = Self {
             name: name.into(),
             opts,
+            flow_probe,
             mux: Some(Arc::new(mux)),
             ws,
             rng,
@@ -484,6 +489,7 @@ impl Sim {
             ["sinkblock"] => { self.ws.set_sink_room(Some(0)); "unit".into() }
             ["sinkunblock"] => { self.ws.set_sink_room(None); "unit".into() }
             ["sinkgrant", k] => { self.ws.set_sink_room(Some(num(k) as usize)); "unit".into() }
+            ["flowcount"] => format!("count {}", (self.flow_probe)()),
             ["dropmux"] => {
                 if self.pending_futures() > 0 {
                     return "badhandle".into();
